@@ -11,15 +11,13 @@ Proof. vm_compute. reflexivity. Qed.
 (** the property at full strength: for EVERY expression tree a Python program can write, the text sqlframe
     emits is accepted by the engine's grammar, calls only functions the engine has, and its three-valued
     value on every row (of the domain) is PySpark's value of the tree the user wrote *)
-Definition C05_full : Prop :=
-  forall t, uwf t = true ->
-    exists e, reparse (print (build gen_cfg t)) = ROk e [] /\ known e = true /\
-              forall en, udom en t = true -> seval en e = ueval en t.
+Definition C05_full : Prop := full_for gen_cfg.
 
 (** what is proved: the same, plus structural identity of the re-read tree, on the decidable class [in_class]
     (operands of comparison-level operators -- == != < <= > >= eqNullSafe isNull isNotNull isin between like --
     and of arithmetic are closed: columns, literals, parenthesised results, -(x), CASE, CAST, calls, items;
-    operands of & | are closed or any forward boolean operator; endswith and getItem(<Column>) excluded) *)
+    operands of & | are closed or any forward boolean operator; excluded: endswith, getItem(<Column>), an aliased
+    Column or a F.when(...) result as a bound of between, cast(ty).cast(ty)) *)
 Theorem C05_partial :
   forall t, in_class gen_cfg t = true ->
     exists e, reparse (print (build gen_cfg t)) = ROk e [] /\ strip e = denote t /\ known e = true /\
@@ -53,64 +51,5 @@ Example C05_class_nonempty :
   = true.
 Proof. split; vm_compute; reflexivity. Qed.
 
-(** ---- refutations: the full statement is false of the faithful model ---------------------------------- *)
-Definition env1 (va vb vp vq : val) : env :=
-  mkEnv ["a"; "b"; "s"; "p"; "q"] [va; vb; VStr "a"; vp; vq] [("l", [VInt 10; VInt 20; VInt 30])].
-
-(** (a == 1) == (b == 2): "a = 1 = b = 2" is a syntax error (comparison operators are %nonassoc) *)
-Theorem C05_refuted_comparison_under_comparison :
-  exists t, uwf t = true /\ reparse (print (build gen_cfg t)) = RErr.
-Proof. exists (UBin UEq (UBin UEq a (UPy (VInt 1))) (UBin UEq b (UPy (VInt 2)))). split; vm_compute; reflexivity. Qed.
-
-(** a.eqNullSafe(b) == p: "a IS NOT DISTINCT FROM b = p" is read as a IS NOT DISTINCT FROM (b = p) *)
-Theorem C05_refuted_eqNullSafe_operand_of_comparison :
-  exists t e en, uwf t = true /\ reparse (print (build gen_cfg t)) = ROk e [] /\ strip e <> denote t /\
-                 udom en t = true /\ seval en e <> ueval en t.
-Proof.
-  exists (UBin UEq (UNse p q) (UCol "r")).
-  eexists. exists (mkEnv ["p"; "q"; "r"] [VBool true; VNull; VNull] []).
-  split; [reflexivity|]. split; [vm_compute; reflexivity|].
-  split; [vm_compute; discriminate|]. split; [reflexivity|]. vm_compute. discriminate.
-Qed.
-
-(** (~p).isNull(): "NOT (p) IS NULL" is read as NOT ((p) IS NULL) *)
-Theorem C05_refuted_not_operand_of_isNull :
-  exists t e en, uwf t = true /\ reparse (print (build gen_cfg t)) = ROk e [] /\ strip e <> denote t /\
-                 udom en t = true /\ seval en e <> ueval en t.
-Proof.
-  exists (UIsNull (UNot p)). eexists. exists (env1 VNull VNull (VBool true) VNull).
-  split; [reflexivity|]. split; [vm_compute; reflexivity|].
-  split; [vm_compute; discriminate|]. split; [reflexivity|]. vm_compute. discriminate.
-Qed.
-
-(** a.isNotNull().isNull(): "NOT a IS NULL IS NULL" is read as NOT ((a IS NULL) IS NULL) *)
-Theorem C05_refuted_isNotNull_operand_of_isNull :
-  exists t e en, uwf t = true /\ reparse (print (build gen_cfg t)) = ROk e [] /\ strip e <> denote t /\
-                 udom en t = true /\ seval en e <> ueval en t.
-Proof.
-  exists (UIsNull (UIsNotNull a)). eexists. exists (env1 (VInt 1) VNull VNull VNull).
-  split; [reflexivity|]. split; [vm_compute; reflexivity|].
-  split; [vm_compute; discriminate|]. split; [reflexivity|]. vm_compute. discriminate.
-Qed.
-
-(** s.endswith('a') calls ENDSWITH, a function DuckDB does not have *)
-Theorem C05_refuted_endswith :
-  exists t, uwf t = true /\ known (build gen_cfg t) = false.
-Proof. exists (UEndsWith s (UPy (VStr "a"))). split; vm_compute; reflexivity. Qed.
-
-(** l.getItem(<Column a>) indexes from 1 where PySpark indexes from 0 *)
-Theorem C05_refuted_getItem_column :
-  exists t e en, uwf t = true /\ reparse (print (build gen_cfg t)) = ROk e [] /\ strip e <> denote t /\
-                 udom en t = true /\ seval en e <> ueval en t.
-Proof.
-  exists (UGetItemCol l a). eexists. exists (env1 (VInt 1) VNull VNull VNull).
-  split; [reflexivity|]. split; [vm_compute; reflexivity|].
-  split; [vm_compute; discriminate|]. split; [reflexivity|]. vm_compute. discriminate.
-Qed.
-
-Theorem C05_full_is_false : ~ C05_full.
-Proof.
-  intro F. destruct C05_refuted_comparison_under_comparison as (t & W & E).
-  destruct (F t W) as (e & R & _). rewrite E in R. discriminate.
-Qed.
-Print Assumptions C05_full_is_false.
+(** refutation witnesses (one per known finding the model can express) live in props/C05_refuted.v; the check
+    compiles each of them separately, so that a defect repaired upstream does not break the proved part *)
